@@ -323,7 +323,7 @@ func genScenario(t *rapid.T, transports []string) Scenario {
 	}
 	drawExtras(t, &s)
 	drawFatal(t, &s, false)
-	drawLateHandover(t, &s)
+	drawReaderBusy(t, &s)
 	return s
 }
 
@@ -364,7 +364,7 @@ func genRestartOn(t *rapid.T, transports []string) Scenario {
 	drawRestart(t, &s)
 	drawExtras(t, &s)
 	drawFatal(t, &s, false)
-	drawLateHandover(t, &s)
+	drawReaderBusy(t, &s)
 	return s
 }
 
